@@ -1,6 +1,10 @@
 package sqltok
 
-import "testing"
+import (
+	"fmt"
+	"strings"
+	"testing"
+)
 
 func TestLex(t *testing.T) {
 	toks := Lex(`select 'it''s', "a""b", E'x\'y', $tag$ body ' $tag$, @p1, $2, a.b::int8[] -- c
@@ -19,4 +23,151 @@ func TestLex(t *testing.T) {
 	if k := Lex("'abc")[0].Kind; k != Bad {
 		t.Fatal("unterminated")
 	}
+}
+
+func show(toks []Token) string {
+	var parts []string
+	for _, tk := range toks {
+		switch tk.Kind {
+		case Word, QuotedIdent, String, EString, UString, UIdent, DollarString, BitString, NamedParam, Param, Bad:
+			parts = append(parts, fmt.Sprintf("%s(%s)", tk.Kind, tk.Value))
+		default:
+			parts = append(parts, fmt.Sprintf("%s(%s)", tk.Kind, tk.Text))
+		}
+	}
+	return strings.Join(parts, " ")
+}
+
+// Each row is a rule of scan.l (PostgreSQL 16/17, standard_conforming_strings = on).
+func TestRules(t *testing.T) {
+	long := strings.Repeat("a", 70)
+	rows := []struct{ in, want string }{
+		// strings: no backslash escapes; '' is a quote
+		{`'a\'`, `String(a\)`},
+		{`'a\' 'b'`, `String(a\) String(b)`},
+		{`'a''b'`, `String(a'b)`},
+		{`''`, `String()`},
+		{`'a`, `Bad(unterminated quoted string)`},
+		{`'a\''`, `Bad(unterminated quoted string)`},
+		// continuation across a newline (comments allowed), not across plain spaces
+		{"'a'\n'b'", `String(ab)`},
+		{"'a' -- c\n  -- d\n 'b'", `String(ab)`},
+		{"'a' 'b'", `String(a) String(b)`},
+		{"'a'\v\n'b'", `String(a) String(b)`},
+		{"'a'\n-- c", `String(a) Comment(-- c)`},
+		{"e'a'\n'\\n'", "EString(a\n)"},
+		// E strings
+		{`E'a\'b'`, `EString(a'b)`},
+		{`e'\n\t\\\x41\101\u00e9\U0001F600\q'`, "EString(\n\t\\AA\u00e9\U0001F600q)"},
+		{`E'\ud83d\ude00'`, "EString(\U0001F600)"},
+		{`E'\ud83d'`, `Bad(invalid Unicode surrogate pair)`},
+		{`E'\u12'`, `Bad(invalid Unicode escape)`},
+		{`E'a\`, `Bad(unterminated quoted string)`},
+		{`E'\0'`, `Bad(invalid byte sequence (NUL) in escape string)`},
+		{`name'x'`, `Word(name) String(x)`},
+		// U& forms
+		{`U&'d\0061t\+000061\\'`, `UString(data\)`},
+		{`u&"d\0061"`, `UIdent(da)`},
+		{`U&'\zz'`, `Bad(invalid Unicode escape)`},
+		{`U &'x'`, `Word(u) Operator(&) String(x)`},
+		// national / bit strings
+		{`N'x'`, `Word(nchar) String(x)`},
+		{`B'01' x'ff'`, `BitString(01) BitString(ff)`},
+		// quoted identifiers
+		{`"a""b"`, `QuotedIdent(a"b)`},
+		{`""`, `Bad(zero-length delimited identifier)`},
+		{`"a`, `Bad(unterminated quoted identifier)`},
+		{`"A b"`, `QuotedIdent(A b)`},
+		{`"` + long + `"`, `QuotedIdent(` + long[:63] + `)`},
+		{`"` + strings.Repeat("a", 62) + "\u00e9" + `"`, `QuotedIdent(` + strings.Repeat("a", 62) + `)`},
+		// identifiers: ASCII-only folding, $ inside, high-bit bytes
+		{`FooBar`, `Word(foobar)`},
+		{"\u00c9t\u00e9", "Word(\u00c9t\u00e9)"},
+		{`a$b$c`, `Word(a$b$c)`},
+		{long, `Word(` + long[:63] + `)`},
+		// dollar quoting
+		{`$$a'b$$`, `DollarString(a'b)`},
+		{`$t$ $$ $t$`, `DollarString( $$ )`},
+		{`$t1$x$t1$`, `DollarString(x)`},
+		{`$1t$`, `Bad(trailing junk after parameter)`},
+		{`$t$x`, `Bad(unterminated dollar-quoted string)`},
+		{`$ x`, `Bad(stray $) Word(x)`},
+		{`$1 $23`, `Param(1) Param(23)`},
+		// comments
+		{"a -- x\rb", `Word(a) Comment(-- x) Word(b)`},
+		{"a -- x\u2028b", "Word(a) Comment(-- x\u2028b)"},
+		{`/* a /* b */ c */ d`, `Comment(/* a /* b */ c */) Word(d)`},
+		{`/* a /* b */ c`, `Bad(unterminated /* comment)`},
+		{`a */ b`, `Word(a) Operator(*/) Word(b)`},
+		// operators
+		{"a ` b", "Word(a) Operator(`) Word(b)"},
+		{"as `x y`", "Word(as) Operator(`) Word(x) Word(y) Operator(`)"},
+		{`a+-b`, `Word(a) Operator(+) Operator(-) Word(b)`},
+		{`a@-b`, `Word(a) Operator(@-) Word(b)`},
+		{`a=-1`, `Word(a) Operator(=) Operator(-) Number(1)`},
+		{`a<=--c`, `Word(a) Operator(<=) Comment(--c)`},
+		{`a*/*c*/b`, `Word(a) Operator(*) Comment(/*c*/) Word(b)`},
+		{`a->>'k'`, `Word(a) Operator(->>) String(k)`},
+		{`x @> y`, `Word(x) Operator(@>) Word(y)`},
+		{`pg_catalog.@>`, `Word(pg_catalog) Punct(.) Operator(@>)`},
+		{`a::int8[]`, `Word(a) Cast(::) Word(int8) Punct([) Punct(])`},
+		{`a := b`, `Word(a) Punct(:=) Word(b)`},
+		// pgx named arguments
+		{`= @pi0::text`, `Operator(=) NamedParam(pi0) Cast(::) Word(text)`},
+		{`@_x9 @9`, `NamedParam(_x9) Operator(@) Number(9)`},
+		{"@\u00e9", "Operator(@) Word(\u00e9)"},
+		// numbers
+		{`1 1.5 .5 1. 1e5 1.5E-3 1_000 0x1F 0o17 0b101`, `Number(1) Number(1.5) Number(.5) Number(1.) Number(1e5) Number(1.5E-3) Number(1_000) Number(0x1F) Number(0o17) Number(0b101)`},
+		{`1..2`, `Number(1) Punct(..) Number(2)`},
+		{`1a`, `Bad(trailing junk after numeric literal)`},
+		{`1e`, `Bad(trailing junk after numeric literal)`},
+		{`1e+`, `Bad(trailing junk after numeric literal)`},
+		{`0x`, `Bad(trailing junk after numeric literal)`},
+		{`0b12`, `Bad(trailing junk after numeric literal)`},
+		{`1__0`, `Bad(trailing junk after numeric literal)`},
+		{`1e'x'`, `Bad(trailing junk after numeric literal) String(x)`},
+		// other
+		{"a \x01 b", "Word(a) Bad(stray byte) Word(b)"},
+		{`a \ b`, `Word(a) Bad(stray byte) Word(b)`},
+		{`{x}`, `Bad(stray byte) Word(x) Bad(stray byte)`},
+	}
+	for _, r := range rows {
+		if got := show(Lex(r.in)); got != r.want {
+			t.Errorf("%q:\n got  %s\n want %s", r.in, got, r.want)
+		}
+	}
+}
+
+func TestTruncatedFlag(t *testing.T) {
+	tk := Lex(`"` + strings.Repeat("x", 64) + `"`)[0]
+	if !tk.Truncated || len(tk.Value) != 63 {
+		t.Fatalf("%+v", tk)
+	}
+	tk = Lex(`"` + strings.Repeat("x", 63) + `"`)[0]
+	if tk.Truncated || len(tk.Value) != 63 {
+		t.Fatalf("%+v", tk)
+	}
+}
+
+// The lexer must consume every byte exactly once and never panic, whatever the input.
+func FuzzLex(f *testing.F) {
+	f.Add("select 'a''b', \"x\", E'\\u00e9', $t$ $t$, 1e5 /* /* */ */ -- x\n @p")
+	f.Fuzz(func(t *testing.T, s string) {
+		toks := Lex(s)
+		pos := 0
+		for _, tk := range toks {
+			if tk.Pos < pos {
+				t.Fatalf("overlap at %d", tk.Pos)
+			}
+			for _, c := range []byte(s[pos:tk.Pos]) {
+				if !isSpace(c) {
+					t.Fatalf("non-space byte %q skipped at %d", c, pos)
+				}
+			}
+			if s[tk.Pos:tk.Pos+len(tk.Text)] != tk.Text {
+				t.Fatal("text mismatch")
+			}
+			pos = tk.Pos + len(tk.Text)
+		}
+	})
 }
